@@ -1,2 +1,147 @@
-/- placeholder driver for C13: replaced when the check for C13 is built -/
-def main : IO Unit := IO.println "not-built"
+import CashewsVerif.Driver.Proto
+import CashewsVerif.Model.Glob
+/-
+Driver for C13.  One request line in, one answer line out.
+
+Strings (patterns, key texts) travel as `x` followed by their code points in decimal joined by `.`
+(`x97.46.42` = "a.*", `x` = the empty string).  Keys of the store are numbers = positions in the
+universe declared by `univ`.
+
+  univ <str>*                      -> ok n=<count>
+  store <now> (<id>/<dl|->/<val>)* -> ok                      the in-memory store, in order
+  scan <pat>                       -> model=<ids> spec=<ids>   model: Glob.scan (regex matcher over translate); spec: live keys filtered by glob
+  getmatch <pat>                   -> model=<id>=<val>;… spec=…
+  delmatch <pat>                   -> model=<live ids afterwards> spec=<live ids not matching>
+  txbegin                          -> ok                       transaction over the current store
+  txset <id> <val> <ttl|->         -> ok
+  txdel <id>                       -> ok
+  txadv <dt>                       -> ok
+  txscan / txgetmatch / txdelmatch <pat>   -> model=… spec=…   spec: the same command on Tx.direct, by glob
+  txlive                           -> model=<ids visible in the transaction> spec=<live ids of Tx.direct>
+  match <pat> <key>                -> model=T|F spec=T|F
+  src <pat>                        -> src=<str> parse=ok|bad   text given to re.compile; does the fragment reader return translate pat?
+-/
+open CashewsVerif CashewsVerif.Proto CashewsVerif.Glob
+
+structure St where
+  names : Array (List Char) := #[]
+  mem : Mem := Mem.init 1000000
+  tx : Tx := { now := 0, backend := [], overlay := [], del := [] }
+
+def decodeStr? (s : String) : Option (List Char) :=
+  match s.toList with
+  | 'x' :: rest =>
+    if rest.isEmpty then some []
+    else allSome (((String.ofList rest).splitOn ".").map fun w => w.toNat?.map Char.ofNat)
+  | _ => none
+
+def encodeStr (cs : List Char) : String := "x" ++ ".".intercalate (cs.map fun c => toString c.toNat)
+
+def St.name (st : St) (k : Nat) : List Char := st.names[k]?.getD []
+
+def sortNat (l : List Nat) : List Nat := (l.toArray.qsort (· < ·)).toList
+
+def showIds (l : List Nat) : String :=
+  if l.isEmpty then "-" else ",".intercalate ((sortNat l).map toString)
+
+def showPairs (l : List (Nat × Option Val)) : String :=
+  if l.isEmpty then "-"
+  else
+    let sorted := (l.toArray.qsort (fun a b => a.1 < b.1)).toList
+    ";".intercalate (sorted.map fun kv => s!"{kv.1}={showOptVal kv.2}")
+
+def parseEntry? (s : String) : Option (Nat × Entry) :=
+  match s.splitOn "/" with
+  | [k, dl, v] => do
+    let k ← k.toNat?
+    let dl ← parseTtl? dl
+    let v ← parseVal? v
+    pure (k, ⟨v, dl⟩)
+  | _ => none
+
+/-- spec of get_match: live matching keys with their values -/
+def getMatchSpec (name : Nat → List Char) (m : Mem) (pat : List Char) : List (Nat × Option Val) :=
+  (m.store.filter fun ke => ke.2.live m.now && glob pat (name ke.1)).map fun ke => (ke.1, some ke.2.val)
+
+/-- spec of delete_match: the live keys that do not match stay -/
+def afterDeleteSpec (name : Nat → List Char) (m : Mem) (pat : List Char) : List Nat :=
+  (liveKeys m).filter fun k => !glob pat (name k)
+
+def answer (a b : String) : String := s!"model={a} spec={b}"
+
+def step (st : St) (line : String) : St × String :=
+  match words line with
+  | "univ" :: ws =>
+    match allSome (ws.map decodeStr?) with
+    | some ns => ({ st with names := ns.toArray }, s!"ok n={ns.length}")
+    | none => (st, "bad-op")
+  | "store" :: now :: es =>
+    match now.toNat?, allSome (es.map parseEntry?) with
+    | some n, some entries => ({ st with mem := { now := n, cap := 1000000, store := entries } }, "ok")
+    | _, _ => (st, "bad-op")
+  | ["scan", p] =>
+    match decodeStr? p with
+    | some pat => (st, answer (showIds (scan st.name st.mem pat)) (showIds (scanSpec st.name st.mem pat)))
+    | none => (st, "bad-op")
+  | ["getmatch", p] =>
+    match decodeStr? p with
+    | some pat =>
+      let r := getMatch st.name st.mem pat
+      ({ st with mem := r.1 }, answer (showPairs r.2) (showPairs (getMatchSpec st.name st.mem pat)))
+    | none => (st, "bad-op")
+  | ["delmatch", p] =>
+    match decodeStr? p with
+    | some pat =>
+      let m' := deleteMatch st.name st.mem pat
+      ({ st with mem := m' }, answer (showIds (liveKeys m')) (showIds (afterDeleteSpec st.name st.mem pat)))
+    | none => (st, "bad-op")
+  | ["txbegin"] =>
+    ({ st with tx := { now := st.mem.now, backend := st.mem.store, overlay := [], del := [] } }, "ok")
+  | ["txset", k, v, ttl] =>
+    match k.toNat?, parseVal? v, parseTtl? ttl with
+    | some k, some v, some ttl => ({ st with tx := st.tx.set k v ttl }, "ok")
+    | _, _, _ => (st, "bad-op")
+  | ["txdel", k] =>
+    match k.toNat? with
+    | some k => ({ st with tx := st.tx.delete k }, "ok")
+    | none => (st, "bad-op")
+  | ["txadv", dt] =>
+    match dt.toNat? with
+    | some dt => ({ st with tx := { st.tx with now := st.tx.now + dt } }, "ok")
+    | none => (st, "bad-op")
+  | ["txscan", p] =>
+    match decodeStr? p with
+    | some pat => (st, answer (showIds (st.tx.scan st.name pat)) (showIds (scanSpec st.name st.tx.direct pat)))
+    | none => (st, "bad-op")
+  | ["txgetmatch", p] =>
+    match decodeStr? p with
+    | some pat =>
+      let r := st.tx.getMatch st.name pat
+      ({ st with tx := r.1 }, answer (showPairs r.2) (showPairs (getMatchSpec st.name st.tx.direct pat)))
+    | none => (st, "bad-op")
+  | ["txdelmatch", p] =>
+    match decodeStr? p with
+    | some pat =>
+      let t' := st.tx.deleteMatch st.name pat
+      ({ st with tx := t' }, answer (showIds (liveKeys t'.direct)) (showIds (afterDeleteSpec st.name st.tx.direct pat)))
+    | none => (st, "bad-op")
+  | ["txlive"] =>
+    let ks := (st.tx.overlay.map (·.1)) ++ (st.tx.backend.map (·.1))
+    let vis := (ks.filter fun k => (st.tx.omem.rawGet k).2.isSome ||
+                  (!st.tx.del.contains k && (st.tx.bmem.rawGet k).2.isSome)).eraseDups
+    (st, answer (showIds vis) (showIds (liveKeys st.tx.direct)))
+  | ["match", p, k] =>
+    match decodeStr? p, decodeStr? k with
+    | some pat, some key =>
+      let b (x : Bool) := if x then "T" else "F"
+      (st, answer (b (matchRe (translate pat) key)) (b (glob pat key)))
+    | _, _ => (st, "bad-op")
+  | ["src", p] =>
+    match decodeStr? p with
+    | some pat =>
+      let ok := parse (source pat) == some (translate pat)
+      (st, s!"src={encodeStr (source pat)} parse={if ok then "ok" else "bad"}")
+    | none => (st, "bad-op")
+  | _ => (st, "bad-op")
+
+def main : IO Unit := mainLoop step {}
